@@ -289,11 +289,26 @@ def part_mps(ctx):
             b = getattr(psi, cname)()
             sb, sp = snap(b), snap(psi)
             a = psi.copy()
+            def edit_blocks(x):
+                # documented in-place API of Tensor (item assignment) on EVERY tensor the object holds, central block included
+                for t in list(x.A.values()):
+                    for key in t.get_blocks_charge():
+                        t[key] = 0 * t[key] + 7.0
+
             edits = [("canonize_", lambda x: x.canonize_(to="first")), ("orthogonalize_site_", lambda x: (x.orthogonalize_site_(0, to="last"), x.absorb_central_(to="last"))),
                      ("truncate_", lambda x: (x.canonize_(to="last"), x.truncate_(to="first", opts_svd={"D_total": 1}))),
-                     ("setitem", lambda x: x.__setitem__(0, 2 * x[0])), ("factor", lambda x: setattr(x, "factor", 7.0))]
+                     ("setitem", lambda x: x.__setitem__(0, 2 * x[0])), ("factor", lambda x: setattr(x, "factor", 7.0)),
+                     ("tensor-item-assignment", edit_blocks), ("tensor-item-assignment", edit_blocks)]
             ename, efn = rng.choice(edits)
             src = getattr(psi, cname)()   # edit a copy of psi that was itself copied: c = copy(src); edit src; c unchanged
+            central = rng.random() < 0.5
+            if central:   # mixed-canonical form with a central block (state left by orthogonalize_site_ / 2-site updates)
+                try:
+                    src.orthogonalize_site_(rng.randint(0, N - 1), to=rng.choice(["first", "last"]), normalize=False)
+                except Exception as e:  # noqa: BLE001
+                    ctx.count(f"C:central-raised:{type(e).__name__}")
+            ctx.count(f"C:independence:central-block:{src.pC is not None}")
+            ename = ename + ("+central" if src.pC is not None else "")
             c = getattr(src, cname)()
             sc = snap(c)
             try:
